@@ -122,6 +122,23 @@ static Result check_section(const J &c)
           for (auto &vs : vel_slots) if (bad >= vs.first && bad < vs.first + vs.second) is_vel = true;
           return Result::fail(is_vel ? "2d-velocity" : "2d-vs-3d", std::string(sph ? "spherical" : "cartesian") + " section " + cs.dump() + ": 2D query (x=" + fmt(x) + ", z=" + fmt(z) + ", depth " + fmt(depth) + ") slot " + std::to_string(bad) + " of " + c.at("props").dump() + "+tag is " + fmt(o2[bad]) + ", the 3D interface at the mapped point gives " + fmt(want[bad]));
         }
+      // every property asked for on its own through the 2D interface (a one-entry list takes its own path through the wrappers) must
+      // give the block it gives inside the batch
+      {
+        size_t p0 = 0;
+        for (const auto &pr : with_tag)
+          {
+            const unsigned wdt = prop_width(pr);
+            const std::vector<double> one = W->properties(std::array<double, 2>{{x, z}}, depth, {pr});
+            r.inner++;
+            if (one.size() != wdt) return Result::fail("2d-single-size", "2D request for the single property " + std::to_string(pr[0]) + " returns " + std::to_string(one.size()) + " values instead of " + std::to_string(wdt));
+            if (!(pr[0] == 5 && sph))
+              for (unsigned k = 0; k < wdt; ++k)
+                if (!close_rel(one[k], want[p0 + k], 1e-7, 1e-12))
+                  return Result::fail(pr[0] == 5 ? "2d-single-velocity" : "2d-single-property", std::string(sph ? "spherical" : "cartesian") + " section " + cs.dump() + ": the 2D request for property kind " + std::to_string(pr[0]) + " alone returns " + fmt(one[k]) + " in slot " + std::to_string(k) + " at (x=" + fmt(x) + ", z=" + fmt(z) + ", depth " + fmt(depth) + "), inside a batch (and through the 3D interface) it is " + fmt(want[p0 + k]));
+            p0 += wdt;
+          }
+      }
     }
   return r;
 }
